@@ -128,7 +128,8 @@ impl Gitignore {
     /// `$XDG_CONFIG_HOME/git/ignore` is read. If `$XDG_CONFIG_HOME` is not
     /// set or is empty, then `$HOME/.config/git/ignore` is used instead.
     pub fn global() -> (Gitignore, Option<Error>) {
-        GitignoreBuilder::new("").build_global()
+        let cwd = std::env::current_dir().unwrap_or_default();
+        GitignoreBuilder::new(cwd).build_global()
     }
 
     /// Creates a new empty gitignore matcher that never matches anything.
